@@ -111,4 +111,4 @@ Example ex_idle_completes :
 Proof. vm_compute. eauto. Qed.
 
 Example ex_legal : legal ex_state (mk (Message 1 (CreateChannel 3 (CReceiver 16))) 2000).
-Proof. apply legal_dec_ok; [vm_compute; reflexivity|exact I|reflexivity|]. cbn. unfold u32_max. lia. Qed.
+Proof. apply legal_dec_ok; [vm_compute; reflexivity|exact I|vm_compute; reflexivity|]. cbn. unfold u32_max. lia. Qed.
